@@ -450,3 +450,315 @@ theorem writesOk_runActs (w : World) (as : List Act) (hi : LeaseInv w) (h : Writ
   induction as generalizing w with
   | nil => exact h
   | cons a r ih => exact ih _ (leaseInv_act w a hi) (writesOk_act w a hi h)
+
+/-! ### queues, writes and deliveries (C22) -/
+
+def qOf (w : World) (e : Nat) (k : Key) : Queue := ((w.node e).queues.get? k).getD {}
+
+/-- how one step may change queues, `writes` and `delivered` -/
+inductive QStep (w w' : World) : Prop where
+  | same (hq : ∀ e, (w'.node e).queues = (w.node e).queues) (hw : w'.writes = w.writes) (hd : w'.delivered = w.delivered)
+  | write (c : PutCtx) (hw : w'.writes = w.writes ++ [writeEvOf w c]) (hd : w'.delivered = w.delivered)
+      (hq : ∀ e, (w'.node e).queues =
+        if c.e = e then (w.node e).queues.insert c.key { (qOf w c.e c.key) with entries := (qOf w c.e c.key).entries ++ [c.payload] }
+        else (w.node e).queues)
+  | deliver (l : Nat) (k : Key) (x : Payload) (hx : (qOf w l k).entries[(qOf w l k).consumed]? = some x)
+      (hw : w'.writes = w.writes) (hd : w'.delivered = w.delivered ++ [(l, k, x)])
+      (hq : ∀ e, (w'.node e).queues =
+        if l = e then (w.node e).queues.insert k { (qOf w l k) with consumed := (qOf w l k).consumed + 1 }
+        else (w.node e).queues)
+
+theorem queues_setNode_same (w : World) (e : Nat) (s : NodeSt) (m : Nat) (h : s.queues = (w.node e).queues) :
+    ((w.setNode e s).node m).queues = (w.node m).queues := by
+  rw [node_setNode]; by_cases he : e = m
+  · subst he; simp [h]
+  · simp [he]
+
+theorem getLoop_q (w : World) (tid n : Nat) (topic : Name) (seg del : Nat) :
+    (∀ e, ((getLoop w tid n topic seg del).1.node e).queues = (w.node e).queues) ∧
+    (getLoop w tid n topic seg del).1.writes = w.writes ∧ (getLoop w tid n topic seg del).1.delivered = w.delivered := by
+  unfold getLoop
+  simp only
+  split
+  · exact ⟨fun e => queues_setNode_same w n _ e rfl, rfl, rfl⟩
+  · split
+    · exact ⟨fun e => queues_setNode_same w n _ e rfl, rfl, rfl⟩
+    · exact ⟨fun e => rfl, rfl, rfl⟩
+
+theorem monLoop_q (w : World) (tid n : Nat) (l : List (Name × Nat)) :
+    (∀ e, ((monLoop w tid n l).1.node e).queues = (w.node e).queues) ∧
+    (monLoop w tid n l).1.writes = w.writes ∧ (monLoop w tid n l).1.delivered = w.delivered := by
+  induction l generalizing w with
+  | nil => exact ⟨fun e => rfl, rfl, rfl⟩
+  | cons p r ih =>
+    obtain ⟨topic, seg⟩ := p
+    unfold monLoop
+    simp only
+    split
+    · exact ih w
+    · exact ⟨fun e => rfl, rfl, rfl⟩
+
+theorem qstep_same_of (w w' : World) (h : (∀ e, (w'.node e).queues = (w.node e).queues) ∧ w'.writes = w.writes ∧ w'.delivered = w.delivered) :
+    QStep w w' := QStep.same h.1 h.2.1 h.2.2
+
+theorem stepTask_qstep (w : World) (tid : Nat) : QStep w (stepTask w tid).1 := by
+  unfold stepTask
+  split
+  · exact .same (fun _ => rfl) rfl rfl
+  · exact .same (fun _ => rfl) rfl rfl
+  · -- putStart
+    split
+    · exact .same (fun _ => rfl) rfl rfl
+    · simp only
+      split
+      · exact .same (fun _ => rfl) rfl rfl
+      · rename_i ts _ _
+        exact .same (fun e => queues_setNode_same w ts.leaderNode _ e rfl) rfl rfl
+  · -- putRefreshed
+    rename_i c _
+    simp only
+    split
+    · exact .same (fun _ => rfl) rfl rfl
+    · split
+      · exact .same (fun e => queues_setNode_same w c.e _ e rfl) rfl rfl
+      · exact .same (fun e => queues_setNode_same w c.e _ e rfl) rfl rfl
+  · -- putChecked
+    rename_i c _
+    simp only
+    split
+    · exact .same (fun _ => rfl) rfl rfl
+    · exact .same (fun e => queues_setNode_same w c.e _ e rfl) rfl rfl
+  · -- putLocked
+    rename_i c _
+    refine .write c rfl rfl ?_
+    intro e
+    show ((w.setNode c.e _).node e).queues = _
+    rw [node_setNode]
+    by_cases he : c.e = e
+    · subst he; simp [qOf]
+    · simp [he]
+  · -- putWritten
+    rename_i c _
+    exact .same (fun e => queues_setNode_same w c.e _ e rfl) rfl rfl
+  · exact .same (fun _ => rfl) rfl rfl
+  · split <;> exact .same (fun _ => rfl) rfl rfl
+  · split <;> exact .same (fun _ => rfl) rfl rfl
+  · -- getStart
+    rename_i n topic _
+    simp only
+    split
+    · exact .same (fun _ => rfl) rfl rfl
+    · have h := getLoop_q (w.setNode n { (w.node n) with cursorLocked := true }) tid n topic
+        (((w.node n).cursors.get? topic).getD (0, 0)).1 (((w.node n).cursors.get? topic).getD (0, 0)).2
+      exact .same (fun e => (h.1 e).trans (queues_setNode_same w n _ e rfl)) h.2.1 h.2.2
+  · -- getPlanned
+    rename_i n topic seg del cur leader _
+    simp only
+    split
+    · exact .same (fun e => queues_setNode_same w n _ e rfl) rfl rfl
+    · split
+      · rename_i x hpop
+        -- a delivery
+        have hx : (qOf w leader (topic, seg)).entries[(qOf w leader (topic, seg)).consumed]? = some x := by
+          unfold Queue.pop at hpop
+          split at hpop
+          · rename_i y hy
+            simp only [Option.some.injEq] at hpop
+            rw [← hpop]; exact hy
+          · simp at hpop
+        have hq' : (((w.node leader).queues.get? (topic, seg)).getD {}).pop.2 =
+            { (qOf w leader (topic, seg)) with consumed := (qOf w leader (topic, seg)).consumed + 1 } := by
+          unfold Queue.pop
+          unfold qOf at hx
+          rw [hx]
+          rfl
+        refine .deliver leader (topic, seg) x hx rfl rfl ?_
+        intro e
+        show (((w.setNode leader _).setNode n _).node e).queues = _
+        rw [node_setNode]
+        by_cases h1 : n = e
+        · subst h1
+          simp only [if_true]
+          rw [node_setNode]
+          by_cases h2 : leader = n
+          · subst h2; simp only [if_true]; rw [hq']
+          · simp only [h2, if_false]
+        · simp only [h1, if_false]
+          rw [node_setNode]
+          by_cases h2 : leader = e
+          · subst h2; simp only [if_true]; rw [hq']
+          · simp only [h2, if_false]
+      · split
+        · exact qstep_same_of _ _ (getLoop_q w tid n topic (seg + 1) 0)
+        · exact .same (fun e => queues_setNode_same w n _ e rfl) rfl rfl
+  · exact .same (fun _ => rfl) rfl rfl
+  · exact qstep_same_of _ _ (monLoop_q _ _ _ _)
+  · split
+    · exact qstep_same_of _ _ (monLoop_q _ _ _ _)
+    · exact .same (fun _ => rfl) rfl rfl
+
+/-- payloads delivered from the queue of (node `e`, wal key `k`), in delivery order -/
+def dFrom (w : World) (e : Nat) (k : Key) : List Payload :=
+  (w.delivered.filter (fun d => d.1 == e && d.2.1 == k)).map (·.2.2)
+/-- payloads written to that queue, in write order -/
+def wTo (w : World) (e : Nat) (k : Key) : List Payload :=
+  (w.writes.filter (fun ev => ev.node == e && ev.key == k)).map (·.payload)
+
+/-- per queue: it holds exactly what was written to it, in order; what was delivered from it is exactly its consumed
+prefix, in order -/
+def QInv (w : World) : Prop :=
+  ∀ e k, (qOf w e k).entries = wTo w e k ∧ dFrom w e k = (qOf w e k).entries.take (qOf w e k).consumed ∧
+    (qOf w e k).consumed ≤ (qOf w e k).entries.length
+
+theorem take_succ_of_getElem? {α : Type} (l : List α) (n : Nat) (x : α) (h : l[n]? = some x) :
+    l.take (n + 1) = l.take n ++ [x] := by
+  induction l generalizing n with
+  | nil => simp at h
+  | cons a r ih =>
+    cases n with
+    | zero => simp at h; subst h; simp
+    | succ m => simp at h; simp [ih m h]
+
+theorem qinv_qstep (w w' : World) (h : QInv w) (hs : QStep w w') : QInv w' := by
+  cases hs with
+  | same hq hw hd =>
+    intro e k
+    have : qOf w' e k = qOf w e k := by unfold qOf; rw [hq e]
+    unfold dFrom wTo
+    rw [this, hw, hd]
+    exact h e k
+  | write c hw hd hq =>
+    intro e k
+    obtain ⟨h1, h2, h3⟩ := h e k
+    have hd' : dFrom w' e k = dFrom w e k := by unfold dFrom; rw [hd]
+    have hw' : wTo w' e k = wTo w e k ++ (if c.e = e ∧ c.key = k then [c.payload] else []) := by
+      unfold wTo
+      rw [hw, List.filter_append, List.map_append]
+      congr 1
+      simp only [writeEvOf, List.filter_cons, List.filter_nil]
+      by_cases h4 : c.e = e ∧ c.key = k
+      · obtain ⟨h5, h6⟩ := h4; subst h5; subst h6; simp
+      · simp only [h4, if_false]
+        have : (c.e == e && c.key == k) = false := by
+          rw [Bool.and_eq_false_iff]
+          by_cases h5 : c.e = e
+          · right; simpa using fun h6 => h4 ⟨h5, h6⟩
+          · left; simpa using h5
+        simp [this]
+    by_cases h4 : c.e = e ∧ c.key = k
+    · obtain ⟨h5, h6⟩ := h4
+      subst h5; subst h6
+      have hq' : qOf w' c.e c.key = { (qOf w c.e c.key) with entries := (qOf w c.e c.key).entries ++ [c.payload] } := by
+        unfold qOf; rw [hq c.e]; simp [qOf]
+      rw [hd', hw', hq']
+      simp only [and_self, if_true]
+      refine ⟨by rw [h1], ?_, by simp only [List.length_append, List.length_singleton]; omega⟩
+      rw [List.take_append_of_le_length h3]; exact h2
+    · have hq' : qOf w' e k = qOf w e k := by
+        unfold qOf; rw [hq e]
+        by_cases h5 : c.e = e
+        · subst h5
+          simp only [if_true]
+          rw [AMap.get?_insert_ne _ _ _ _ (fun h6 => h4 ⟨rfl, h6⟩)]
+        · simp only [h5, if_false]
+      rw [hd', hw', hq']
+      simp only [h4, if_false, List.append_nil]
+      exact ⟨h1, h2, h3⟩
+  | deliver l k0 x hx hw hd hq =>
+    intro e k
+    obtain ⟨h1, h2, h3⟩ := h e k
+    have hw' : wTo w' e k = wTo w e k := by unfold wTo; rw [hw]
+    have hd' : dFrom w' e k = dFrom w e k ++ (if l = e ∧ k0 = k then [x] else []) := by
+      unfold dFrom
+      rw [hd, List.filter_append, List.map_append]
+      congr 1
+      simp only [List.filter_cons, List.filter_nil]
+      by_cases h4 : l = e ∧ k0 = k
+      · obtain ⟨h5, h6⟩ := h4; subst h5; subst h6; simp
+      · simp only [h4, if_false]
+        have : (l == e && k0 == k) = false := by
+          rw [Bool.and_eq_false_iff]
+          by_cases h5 : l = e
+          · right; simpa using fun h6 => h4 ⟨h5, h6⟩
+          · left; simpa using h5
+        simp [this]
+    by_cases h4 : l = e ∧ k0 = k
+    · obtain ⟨h5, h6⟩ := h4
+      subst h5; subst h6
+      have hq' : qOf w' l k0 = { (qOf w l k0) with consumed := (qOf w l k0).consumed + 1 } := by
+        unfold qOf; rw [hq l]; simp [qOf]
+      rw [hd', hw', hq']
+      simp only [and_self, if_true]
+      refine ⟨h1, ?_, ?_⟩
+      · rw [take_succ_of_getElem? _ _ _ hx, h2]
+      · have := List.getElem?_eq_some_iff.mp hx
+        obtain ⟨hlt, _⟩ := this
+        exact hlt
+    · have hq' : qOf w' e k = qOf w e k := by
+        unfold qOf; rw [hq e]
+        by_cases h5 : l = e
+        · subst h5
+          simp only [if_true]
+          rw [AMap.get?_insert_ne _ _ _ _ (fun h6 => h4 ⟨rfl, h6⟩)]
+        · simp only [h5, if_false]
+      rw [hd', hw', hq']
+      simp only [h4, if_false, List.append_nil]
+      exact ⟨h1, h2, h3⟩
+
+theorem applyNext_q (w : World) (n : Nat) : QStep w (applyNext w n).1 := by
+  unfold applyNext
+  simp only
+  split
+  · exact .same (fun _ => rfl) rfl rfl
+  · exact .same (fun e => queues_setNode_same w n _ e rfl) rfl rfl
+
+theorem qinv_act (w : World) (a : Act) (h : QInv w) : QInv (act w a) := by
+  cases a with
+  | step tid => exact qinv_qstep _ _ h (stepTask_qstep w tid)
+  | apply n => exact qinv_qstep _ _ h (applyNext_q w n)
+  | sync n => exact qinv_qstep _ _ h (.same (fun e => queues_setNode_same w n _ e rfl) rfl rfl)
+  | spawn tid t => exact qinv_qstep _ _ h (.same (fun _ => rfl) rfl rfl)
+
+theorem qinv_runActs (w : World) (as : List Act) (h : QInv w) : QInv (runActs w as) := by
+  induction as generalizing w with
+  | nil => exact h
+  | cons a r ih => exact ih _ (qinv_act w a h)
+
+theorem qinv_applyAllOn (w : World) (n fuel : Nat) (h : QInv w) : QInv (applyAllOn w n fuel) := by
+  induction fuel generalizing w with
+  | zero => exact h
+  | succ k ih =>
+    unfold applyAllOn
+    have := qinv_qstep _ _ h (applyNext_q w n)
+    split
+    · rename_i w' _ heq; rw [heq] at this; exact ih _ this
+    · rename_i w' heq; rw [heq] at this; exact this
+
+theorem qinv_applyAll (w : World) (h : QInv w) : QInv (applyAll w) := by
+  unfold applyAll
+  have : ∀ (l : List Nat) (w : World), QInv w → QInv (l.foldl (fun w n => applyAllOn w n (w.log.length + 1)) w) := by
+    intro l
+    induction l with
+    | nil => intro w h; exact h
+    | cons a r ih => intro w h; exact ih _ (qinv_applyAllOn w a _ h)
+  exact this _ w h
+
+theorem qinv_initWorld (n thresh : Nat) : QInv (initWorld n thresh) := by
+  unfold initWorld
+  apply qinv_applyAll
+  intro e k
+  have : qOf { nodeIds := (List.range n).map (· + 1), thresh := thresh,
+               nodes := ((List.range n).map (· + 1)).foldl (fun m i => m.insert i {}) AMap.empty,
+               log := ((List.range n).map (· + 1)).map fun i => Meta.Cmd.upsertNode i (addrOf i) } e k = {} := by
+    unfold qOf World.node
+    simp only
+    rw [node_of_blank]
+    rfl
+  rw [this]
+  exact ⟨rfl, rfl, Nat.le_refl _⟩
+
+theorem qinv_createTopic (w : World) (name : Name) (l : Nat) (h : QInv w) : QInv (createTopic w name l) := by
+  unfold createTopic
+  apply qinv_applyAll
+  intro e k
+  exact h e k
